@@ -91,6 +91,28 @@ impl Buildpack for TestBuildpack {
                 r.metadata(hm).expect("a map serialises as a table");
                 DetectResultBuilder::pass().build_plan(BuildPlanBuilder::new().provides("node").requires(r).build()).build()
             }
+            // the same dependency required twice in one alternative (with different metadata) among others: every
+            // requirement is written, in the order given (C20)
+            "pass_plan_dup" => {
+                let req = |n: &str, k: &str, v: &str| {
+                    let mut r = libcnb::data::build_plan::Require::new(n);
+                    let mut t = toml::Table::new();
+                    t.insert(k.to_string(), toml::Value::String(v.to_string()));
+                    r.metadata(t).expect("a table serialises as a table");
+                    r
+                };
+                DetectResultBuilder::pass()
+                    .build_plan(
+                        BuildPlanBuilder::new()
+                            .provides("jdk")
+                            .requires("node").requires(req("jdk", "version", "17")).requires("maven").requires("gradle")
+                            .requires(req("jdk", "build", "true")).requires("python")
+                            .or()
+                            .requires("a").requires("b").requires("a").requires("c").requires("d")
+                            .build(),
+                    )
+                    .build()
+            }
             "fail" => DetectResultBuilder::fail().build(),
             _ => Err(Error::BuildpackError(BpError)),
         }
